@@ -1,0 +1,398 @@
+//! flume-compatible channels on top of the verification runtime.
+//!
+//! Semantics (pinned by the harness' conformance suite against the real flume): FIFO queue,
+//! `send` blocks while the queue is at capacity and fails once every receiver is gone, `recv`
+//! drains the queue before reporting disconnection, dropping the last handle of one side wakes
+//! the other side (also while unwinding), a two-way select is ready on a side that has a message
+//! or is disconnected and asks the runtime when both are.
+use std::collections::VecDeque;
+use std::sync::{Arc, Mutex};
+use std::time::Duration;
+
+use super::{rt, try_rt, wake, ChoiceKind, Op, Param, TaskId};
+
+#[derive(Debug, Clone, Copy, PartialEq, Eq)]
+pub enum RecvError {
+    Disconnected,
+}
+#[derive(Debug, Clone, Copy, PartialEq, Eq)]
+pub enum TryRecvError {
+    Empty,
+    Disconnected,
+}
+#[derive(Debug, Clone, Copy, PartialEq, Eq)]
+pub enum RecvTimeoutError {
+    Timeout,
+    Disconnected,
+}
+#[derive(Clone, Copy, PartialEq, Eq)]
+pub struct SendError<T>(pub T);
+impl<T> std::fmt::Debug for SendError<T> {
+    fn fmt(&self, f: &mut std::fmt::Formatter<'_>) -> std::fmt::Result {
+        write!(f, "SendError(..)")
+    }
+}
+impl<T> std::fmt::Display for SendError<T> {
+    fn fmt(&self, f: &mut std::fmt::Formatter<'_>) -> std::fmt::Result {
+        write!(f, "sending on a closed channel")
+    }
+}
+
+struct State<T> {
+    id: usize,
+    q: VecDeque<(T, u64)>,
+    /// clock token left by the last handle of a side that went away
+    close_token: u64,
+    cap: Option<usize>,
+    senders: usize,
+    receivers: usize,
+    wait_recv: Vec<TaskId>,
+    wait_send: Vec<TaskId>,
+}
+
+type Shared<T> = Arc<Mutex<State<T>>>;
+
+pub struct Sender<T>(Shared<T>);
+pub struct Receiver<T>(Shared<T>);
+
+impl<T> std::fmt::Debug for Sender<T> {
+    fn fmt(&self, f: &mut std::fmt::Formatter<'_>) -> std::fmt::Result {
+        write!(f, "Sender")
+    }
+}
+impl<T> std::fmt::Debug for Receiver<T> {
+    fn fmt(&self, f: &mut std::fmt::Formatter<'_>) -> std::fmt::Result {
+        write!(f, "Receiver")
+    }
+}
+
+fn new_chan<T>(cap: Option<usize>) -> (Sender<T>, Receiver<T>) {
+    let id = try_rt().map(|r| r.new_object()).unwrap_or(0);
+    let s = Arc::new(Mutex::new(State {
+        id,
+        q: VecDeque::new(),
+        close_token: 0,
+        cap,
+        senders: 1,
+        receivers: 1,
+        wait_recv: vec![],
+        wait_send: vec![],
+    }));
+    (Sender(s.clone()), Receiver(s))
+}
+
+pub fn bounded<T>(cap: usize) -> (Sender<T>, Receiver<T>) {
+    let cap = match try_rt().map(|r| r.param(Param::ChannelCapacity(cap))) {
+        Some(c) if c > 0 => c,
+        _ => cap,
+    };
+    new_chan(Some(cap))
+}
+pub fn unbounded<T>() -> (Sender<T>, Receiver<T>) {
+    new_chan(None)
+}
+
+impl<T> Clone for Sender<T> {
+    fn clone(&self) -> Self {
+        self.0.lock().unwrap().senders += 1;
+        Sender(self.0.clone())
+    }
+}
+impl<T> Clone for Receiver<T> {
+    fn clone(&self) -> Self {
+        self.0.lock().unwrap().receivers += 1;
+        Receiver(self.0.clone())
+    }
+}
+impl<T> Drop for Sender<T> {
+    fn drop(&mut self) {
+        let mut s = match self.0.lock() {
+            Ok(s) => s,
+            Err(p) => p.into_inner(),
+        };
+        s.senders -= 1;
+        if s.senders == 0 {
+            s.close_token = super::hb_release();
+            let w = std::mem::take(&mut s.wait_recv);
+            drop(s);
+            wake(w);
+        }
+    }
+}
+impl<T> Drop for Receiver<T> {
+    fn drop(&mut self) {
+        let mut s = match self.0.lock() {
+            Ok(s) => s,
+            Err(p) => p.into_inner(),
+        };
+        s.receivers -= 1;
+        if s.receivers == 0 {
+            let w = std::mem::take(&mut s.wait_send);
+            drop(s);
+            wake(w);
+        }
+    }
+}
+
+impl<T> Sender<T> {
+    pub fn send(&self, v: T) -> Result<(), SendError<T>> {
+        let id = self.0.lock().unwrap().id;
+        rt().op(Op::Send(id));
+        loop {
+            let mut s = self.0.lock().unwrap();
+            if s.receivers == 0 {
+                return Err(SendError(v));
+            }
+            if s.cap.map(|c| s.q.len() < c).unwrap_or(true) {
+                let token = super::hb_release();
+                s.q.push_back((v, token));
+                let w = std::mem::take(&mut s.wait_recv);
+                drop(s);
+                wake(w);
+                return Ok(());
+            }
+            let me = rt().me();
+            if !s.wait_send.contains(&me) {
+                s.wait_send.push(me);
+            }
+            drop(s);
+            rt().block(None);
+        }
+    }
+
+    pub fn is_disconnected(&self) -> bool {
+        self.0.lock().unwrap().receivers == 0
+    }
+}
+
+impl<T> Receiver<T> {
+    pub(crate) fn id(&self) -> usize {
+        self.0.lock().unwrap().id
+    }
+    /// Non blocking attempt. Ok(Some) message, Ok(None) empty, Err disconnected.
+    fn poll(&self) -> Result<Option<T>, ()> {
+        let mut s = self.0.lock().unwrap();
+        if let Some((v, token)) = s.q.pop_front() {
+            let w = std::mem::take(&mut s.wait_send);
+            drop(s);
+            super::hb_acquire(token);
+            wake(w);
+            return Ok(Some(v));
+        }
+        if s.senders == 0 {
+            let token = s.close_token;
+            drop(s);
+            super::hb_acquire(token);
+            return Err(());
+        }
+        Ok(None)
+    }
+    fn ready(&self) -> bool {
+        let s = self.0.lock().unwrap();
+        !s.q.is_empty() || s.senders == 0
+    }
+    fn register(&self) {
+        let me = rt().me();
+        let mut s = self.0.lock().unwrap();
+        if !s.wait_recv.contains(&me) {
+            s.wait_recv.push(me);
+        }
+    }
+    fn unregister(&self) {
+        let me = rt().me();
+        self.0.lock().unwrap().wait_recv.retain(|t| *t != me);
+    }
+
+    pub fn recv(&self) -> Result<T, RecvError> {
+        rt().op(Op::Recv(self.id()));
+        loop {
+            match self.poll() {
+                Ok(Some(v)) => return Ok(v),
+                Err(()) => return Err(RecvError::Disconnected),
+                Ok(None) => {
+                    self.register();
+                    rt().block(None);
+                    self.unregister();
+                }
+            }
+        }
+    }
+    pub fn try_recv(&self) -> Result<T, TryRecvError> {
+        rt().op(Op::Recv(self.id()));
+        match self.poll() {
+            Ok(Some(v)) => Ok(v),
+            Err(()) => Err(TryRecvError::Disconnected),
+            Ok(None) => Err(TryRecvError::Empty),
+        }
+    }
+    pub fn recv_timeout(&self, d: Duration) -> Result<T, RecvTimeoutError> {
+        rt().op(Op::Recv(self.id()));
+        let deadline = rt().now() + d;
+        loop {
+            match self.poll() {
+                Ok(Some(v)) => return Ok(v),
+                Err(()) => return Err(RecvTimeoutError::Disconnected),
+                Ok(None) => {
+                    let now = rt().now();
+                    if now >= deadline {
+                        return Err(RecvTimeoutError::Timeout);
+                    }
+                    self.register();
+                    let timed_out = rt().block(Some(deadline - now));
+                    self.unregister();
+                    if timed_out {
+                        // a message may have arrived at the very same instant
+                        return match self.poll() {
+                            Ok(Some(v)) => Ok(v),
+                            Err(()) => Err(RecvTimeoutError::Disconnected),
+                            Ok(None) => Err(RecvTimeoutError::Timeout),
+                        };
+                    }
+                }
+            }
+        }
+    }
+    pub fn is_empty(&self) -> bool {
+        self.0.lock().unwrap().q.is_empty()
+    }
+    pub fn len(&self) -> usize {
+        self.0.lock().unwrap().q.len()
+    }
+    pub fn is_disconnected(&self) -> bool {
+        self.0.lock().unwrap().senders == 0
+    }
+    /// Non-blocking drain of whatever is queued right now (no scheduling point).
+    pub fn drain_now(&self) -> Vec<T> {
+        let mut s = self.0.lock().unwrap();
+        let v: Vec<T> = s.q.drain(..).map(|(v, _)| v).collect();
+        let w = std::mem::take(&mut s.wait_send);
+        drop(s);
+        wake(w);
+        v
+    }
+}
+
+/// Two-way select, the only shape the engine uses. `None` = timed out.
+#[allow(clippy::type_complexity)]
+pub fn select2<A, B>(
+    a: &Receiver<A>,
+    b: &Receiver<B>,
+    timeout: Option<Duration>,
+) -> Option<Result<Result<A, RecvError>, Result<B, RecvError>>> {
+    rt().op(Op::Select(a.id(), b.id()));
+    let deadline = timeout.map(|d| rt().now() + d);
+    loop {
+        let ra = a.ready();
+        let rb = b.ready();
+        let pick_a = match (ra, rb) {
+            (true, true) => rt().choose(ChoiceKind::Select, 2) == 0,
+            (true, false) => true,
+            (false, true) => false,
+            (false, false) => {
+                let wait = match deadline {
+                    Some(dl) => {
+                        let now = rt().now();
+                        if now >= dl {
+                            return None;
+                        }
+                        Some(dl - now)
+                    }
+                    None => None,
+                };
+                a.register();
+                b.register();
+                let timed_out = rt().block(wait);
+                a.unregister();
+                b.unregister();
+                if timed_out && !a.ready() && !b.ready() {
+                    return None;
+                }
+                continue;
+            }
+        };
+        if pick_a {
+            return Some(Ok(match a.poll() {
+                Ok(Some(v)) => Ok(v),
+                _ => Err(RecvError::Disconnected),
+            }));
+        } else {
+            return Some(Err(match b.poll() {
+                Ok(Some(v)) => Ok(v),
+                _ => Err(RecvError::Disconnected),
+            }));
+        }
+    }
+}
+
+/// Error of `Selector::wait_timeout`.
+#[derive(Debug, Clone, Copy, PartialEq, Eq)]
+pub enum SelectError {
+    Timeout,
+}
+
+/// The builder shape of `flume::Selector` for exactly two receive arms.
+pub struct Selector;
+pub struct Selector1<'a, A, FA> {
+    a: &'a Receiver<A>,
+    fa: FA,
+}
+pub struct Selector2<'a, A, FA, B, FB> {
+    a: &'a Receiver<A>,
+    fa: FA,
+    b: &'a Receiver<B>,
+    fb: FB,
+}
+
+impl Selector {
+    #[allow(clippy::new_ret_no_self)]
+    pub fn new() -> Selector {
+        Selector
+    }
+    pub fn recv<A, R, FA: FnOnce(Result<A, RecvError>) -> R>(
+        self,
+        a: &Receiver<A>,
+        fa: FA,
+    ) -> Selector1<'_, A, FA> {
+        Selector1 { a, fa }
+    }
+}
+impl<'a, A, FA> Selector1<'a, A, FA> {
+    pub fn recv<B, R, FB: FnOnce(Result<B, RecvError>) -> R>(
+        self,
+        b: &'a Receiver<B>,
+        fb: FB,
+    ) -> Selector2<'a, A, FA, B, FB>
+    where
+        FA: FnOnce(Result<A, RecvError>) -> R,
+    {
+        Selector2 {
+            a: self.a,
+            fa: self.fa,
+            b,
+            fb,
+        }
+    }
+}
+impl<A, FA, B, FB> Selector2<'_, A, FA, B, FB> {
+    pub fn wait<R>(self) -> R
+    where
+        FA: FnOnce(Result<A, RecvError>) -> R,
+        FB: FnOnce(Result<B, RecvError>) -> R,
+    {
+        match select2(self.a, self.b, None).expect("untimed select cannot time out") {
+            Ok(a) => (self.fa)(a),
+            Err(b) => (self.fb)(b),
+        }
+    }
+    pub fn wait_timeout<R>(self, d: Duration) -> Result<R, SelectError>
+    where
+        FA: FnOnce(Result<A, RecvError>) -> R,
+        FB: FnOnce(Result<B, RecvError>) -> R,
+    {
+        match select2(self.a, self.b, Some(d)) {
+            Some(Ok(a)) => Ok((self.fa)(a)),
+            Some(Err(b)) => Ok((self.fb)(b)),
+            None => Err(SelectError::Timeout),
+        }
+    }
+}
